@@ -17,6 +17,8 @@ RULE = (
 )
 ASSUMPTIONS = c01.ASSUMPTIONS + ["names of queries containing dask.delayed sources are not compared across rebuilds (delayed keys are random by design)"]
 BUDGET_S = {"quick": 170, "thorough": 3000}
+# multi-input operators whose operands may be optimized independently of each other
+FREE_OPERANDS = {"bcast_scalar", "scalar_binop", "merge", "merge_lr", "merge_leftsemi", "join_list", "concat0"}
 
 
 def systematic(tier):
@@ -179,8 +181,9 @@ def check(case):
                         objs = []
                         for i in last["in"]:
                             objs.append(dvals[i].optimize())
-                        # co-aligned operands must stay co-aligned: only do this for single-input steps
-                        if len(objs) == 1:
+                        # co-aligned operands must stay co-aligned: multi-input steps only where the operands
+                        # are combined by value (scalars) or by key (merges, concat along rows)
+                        if len(objs) == 1 or last["op"] in FREE_OPERANDS:
                             c2 = O.OPS[last["op"]].apply("dask", objs, last.get("args", {}))
                             res = plans.execute(c2.optimize().expr)[0]
                             same(res, "f(optimize(prefix))")
